@@ -78,7 +78,7 @@ def cliErrName : CliErr → String
   | .noEquals => "noEquals" | .notMapping => "notMapping"
   | .servicesNotDict => "servicesNotDict" | .noServices => "noServices"
   | .serviceNotFound => "serviceNotFound" | .ambiguous => "ambiguous"
-  | .noComponent => "noComponent" | .noType => "noType"
+  | .noComponent => "noComponent" | .noType => "noType" | .crash => "crash"
 
 def runCli (j : Json) : Except String Json := do
   let files ← (← arr! j "files").toList.mapM dictOfJson
@@ -100,10 +100,14 @@ def runSplit (j : Json) : Except String Json := do
   let k ← str! j "key"
   pure (Json.mkObj [("out", toJson (splitKey k))])
 
-partial def treeToJson : CompTree → Json
+partial def treeToJson (env : InitEnv) : CompTree → Json
   | .node path cls kwargs dflt kids => Json.mkObj [
       ("path", .str path), ("cls", toJson cls), ("kwargs", cfgToJson (.dict kwargs)),
-      ("default", .str dflt), ("children", .arr (kids.map treeToJson).toArray)]
+      ("default", .str dflt),
+      ("published", toJson (match env.classes cls with
+        | some c => publishedNames c dflt
+        | none => [])),
+      ("children", .arr (kids.map (treeToJson env)).toArray)]
 
 def initErrToJson : InitErr → Json
   | .lookupError p => Json.mkObj [("err", "lookupError"), ("path", .str p)]
@@ -117,7 +121,11 @@ def runInit (j : Json) : Except String Json := do
     let id ← nat! it "id"
     let kids ← dictOfJson (← it.getObjVal? "children")
     let fails := (bool! it "fails").toOption.getD false
-    pure (id, ({ children := kids, ctorFails := fails } : ClassDef))
+    let strs (k : String) : List String := match arr! it k with
+      | .ok a => a.toList.filterMap fun x => x.getStr?.toOption
+      | .error _ => []
+    pure (id, ({ children := kids, ctorFails := fails, prepareAdds := strs "prepare_adds",
+                 startAdds := strs "start_adds" } : ClassDef))
   let resolve ← (← arr! j "resolve").toList.mapM fun it => do
     let pair ← it.getArr?
     pure ((← pair[0]!.getStr?), (← pair[1]!.getNat?))
@@ -125,7 +133,7 @@ def runInit (j : Json) : Except String Json := do
   let env : InitEnv := { classes := fun n => alookup n classes, resolveStr := fun s => alookup s resolve }
   match initTree env 64 "" cfg "default" with
   | .error e => pure (initErrToJson e)
-  | .ok t => pure (Json.mkObj [("tree", treeToJson t)])
+  | .ok t => pure (Json.mkObj [("tree", treeToJson env t)])
 
 def runPublishName (j : Json) : Except String Json := do
   let ph ← str! j "phase"
